@@ -246,7 +246,10 @@ class Sem:
             out = [ARR(list(c)) for c in itertools.islice(itertools.product(*cols), cap * 4)]
             if t[2] is not None:
                 rest = self._cap(self._enum(t[2], uni, depth - 1, cap), 4)
-                out += [ARR(v[1] + [x]) for v in out[:cap] for x in rest]
+                base_ = out[:cap]
+                out += [ARR(v[1] + [x]) for v in base_ for x in rest]
+                out += [ARR(v[1] + [x, y]) for v in base_[:6] for x in rest for y in rest]     # two rest elements
+                out += [ARR(v[1] + [x] * k) for v in base_[:3] for x in rest[:2] for k in (3, 4)]
                 if rest: self.exhaustive = False
             return self._cap(out, cap * 2)
         if k == "Object":
